@@ -242,7 +242,7 @@ impl DataKeeper {
 
 // (contract of fold_state.rs + frame)
 //@ lift crates/air-lib/trace-handler/src/data_keeper/keeper.rs :: impl DataKeeper :: fn prev_slider_mut
-//@ props C01 C09 C10
+//@ props C01 C09 C10 C08
 //@ ret r
 //@ spec
         ensures *r == old(self).prev_ctx.slider, final(self).prev_ctx.slider == *final(r),
@@ -250,7 +250,7 @@ impl DataKeeper {
 //@ end
 
 //@ lift crates/air-lib/trace-handler/src/data_keeper/keeper.rs :: impl DataKeeper :: fn current_slider_mut
-//@ props C01 C09 C10
+//@ props C01 C09 C10 C08
 //@ ret r
 //@ spec
         ensures *r == old(self).current_ctx.slider, final(self).current_ctx.slider == *final(r),
@@ -274,7 +274,7 @@ impl CtxState {
 
 // (contract of slider.rs, in the `restored` vocabulary of fold_state.rs, + frame)
 //@ lift crates/air-lib/trace-handler/src/state_automata/utils.rs :: fn update_ctx_states
-//@ props C01 C09 C10
+//@ props C01 C09 C10 C08
 //@ spec
     requires old(data_keeper).wf()
     ensures final(data_keeper).wf(), final(data_keeper).same_traces(old(data_keeper)),
@@ -306,7 +306,7 @@ impl CtxStateHandler {
 
 // (contract of fold_state.rs + frame)
 //@ lift crates/air-lib/trace-handler/src/state_automata/fold_fsm/state_handler.rs :: impl CtxStateHandler :: fn set_final_states
-//@ props C01 C09 C10
+//@ props C01 C09 C10 C08
 //@ spec
         requires old(data_keeper).wf()
         ensures final(data_keeper).wf(), final(data_keeper).same_traces(old(data_keeper)),
@@ -329,7 +329,7 @@ use MergeCtxType::*;
 
 // (the two rewrites drop an identity cast `TracePos as _` (= `as TracePos`), which Verus rejects -- as in fold_state.rs)
 //@ lift crates/air-lib/trace-handler/src/state_automata/fold_fsm/lore_applier.rs :: fn apply_fold_lore
-//@ props C01 C09 C10
+//@ props C01 C09 C10 C08
 //@ ret r
 //@ rewrite 1 "fold_lore.before_subtrace.begin_pos as _" => "fold_lore.before_subtrace.begin_pos"
 //@ rewrite 1 "fold_lore.after_subtrace.begin_pos as _" => "fold_lore.after_subtrace.begin_pos"
@@ -348,7 +348,7 @@ use MergeCtxType::*;
 //@ end
 
 //@ lift crates/air-lib/trace-handler/src/state_automata/fold_fsm/lore_applier.rs :: fn apply_fold_lore_before
-//@ props C01 C09 C10
+//@ props C01 C09 C10 C08
 //@ ret r
 //@ spec
     requires old(data_keeper).wf()
@@ -359,7 +359,7 @@ use MergeCtxType::*;
 //@ end
 
 //@ lift crates/air-lib/trace-handler/src/state_automata/fold_fsm/lore_applier.rs :: fn apply_fold_lore_after
-//@ props C01 C09 C10
+//@ props C01 C09 C10 C08
 //@ ret r
 //@ spec
     requires old(data_keeper).wf()
@@ -568,7 +568,7 @@ pub open spec fn can_go_back(f: FoldFSM) -> bool {
 
 impl FoldFSM {
 //@ lift crates/air-lib/trace-handler/src/state_automata/fold_fsm.rs :: impl FoldFSM :: fn from_fold_start
-//@ props C10 C01 C09
+//@ props C10 C01 C09 C08
 //@ ret r
 //@ spec
         requires old(data_keeper).wf(),
@@ -604,7 +604,7 @@ impl FoldFSM {
 // (the two rewrites spell `Option::and_then` with a closure that captures `&mut self.<fold>.lore` -- which Verus
 // rejects: "closures capturing a mutable reference" -- as the `match` that is and_then's definition)
 //@ lift crates/air-lib/trace-handler/src/state_automata/fold_fsm.rs :: impl FoldFSM :: fn meet_iteration_start
-//@ props C10 C01 C09
+//@ props C10 C01 C09 C08
 //@ ret r
 //@ rewrite 1 "prev_pos.and_then(|pos| self.prev_fold.lore.remove(pos))" => "match prev_pos { Some(pos) => self.prev_fold.lore.remove(pos), None => None }"
 //@ rewrite 1 "current_pos.and_then(|pos| self.current_fold.lore.remove(pos))" => "match current_pos { Some(pos) => self.current_fold.lore.remove(pos), None => None }"
@@ -639,7 +639,7 @@ impl FoldFSM {
 //@ end
 
 //@ lift crates/air-lib/trace-handler/src/state_automata/fold_fsm.rs :: impl FoldFSM :: fn prepare
-//@ props C10 C01 C09
+//@ props C10 C01 C09 C08
 //@ ret r
 //@ spec
         requires
@@ -692,7 +692,7 @@ impl FoldFSM {
 // TOTAL since the F13 fix, no call-order precondition (see meet_iteration_end). NoFoldIterationStarted exactly when there is no
 // iteration to work with: the cursor is at 0, or the back traversal runs and the cursor is at 1 (nothing to come back TO).
 //@ lift crates/air-lib/trace-handler/src/state_automata/fold_fsm.rs :: impl FoldFSM :: fn meet_back_iterator
-//@ props C10 C01 C09
+//@ props C10 C01 C09 C08
 //@ ret r
 //@ spec
         requires
@@ -758,7 +758,7 @@ impl FoldFSM {
 //@ end
 
 //@ lift crates/air-lib/trace-handler/src/state_automata/fold_fsm.rs :: impl FoldFSM :: fn meet_fold_end
-//@ props C10 C01 C09
+//@ props C10 C01 C09 C08
 //@ spec
         requires
             core_inv(self, *old(data_keeper)),           // follows by inv_grows
